@@ -12,7 +12,7 @@ from .. import AnalysisError, AnchorMissing
 from ..cfg import cfg_of
 from ..model import own_nodes
 from ..values import pattern, match, match_any, find, contains, show, subterms
-from .base import obligation, src, callee_name
+from .base import obligation, src, callee_name, unweak
 from .C04 import pattern_term, returns, enclosing_loop, _inside
 
 T = 'elfi.model.tools'
@@ -351,6 +351,7 @@ def c18_e(ctx):
     # the installing statement is guarded by `is None or isinstance(...)`: collect from the
     # disjunction as well
     for (t, pol, _) in ctx.guards(eo, inst[0]):
+        t = unweak(t)
         if pol and t[0] == 'bool' and t[1] == 'or':
             for x in t[2]:
                 ts = type_set(x)
